@@ -331,6 +331,24 @@ func (o *Object) toArray(s *State) {
 	} else {
 		a = ArrConst(0)
 	}
+	// whole-object copy of another array (byte q = select(B, q) for every q): share B
+	if l, ok := s.concreteMax(o.Len); ok && l > 0 && len(o.Bytes) == l {
+		var base *Term
+		same := true
+		for q := 0; q < l && same; q++ {
+			b := o.Bytes[q]
+			if b == nil || b.Op != OSelect || b.A[1].Op != OConst || b.A[1].Val != uint64(q) || (base != nil && b.A[0] != base) {
+				same = false
+				break
+			}
+			base = b.A[0]
+		}
+		if same && base != nil {
+			o.Arr = base
+			o.Bytes = nil
+			return
+		}
+	}
 	offs := make([]int, 0, len(o.Bytes))
 	for k := range o.Bytes {
 		offs = append(offs, k)
